@@ -1475,6 +1475,12 @@ class Arr2(Model):
     def a_shape(self, I):
         return (_num_or_int(self.D), _num_or_int(self.G))
 
+    def a_size(self, I):
+        return _num_or_int(self.D) * _num_or_int(self.G)
+
+    def a_ndim(self, I):
+        return 2
+
     def _bcast(self, I, other, f):
         me = self.elem
         if isinstance(other, Arr2):
